@@ -175,13 +175,17 @@ func verifMkView(parent Matrix, E [][]float64, viewKind int) *verifView {
 	switch viewKind {
 	case 0:
 	case 1:
-		v = v.slice(false)
+		v = v.slice(true)
 	case 2:
 		v = v.t()
 	case 3:
-		v = v.slice(false).t()
+		v = v.slice(true).t()
 	case 4:
-		v = v.t().slice(false)
+		v = v.t().slice(true)
+	case 8: // possibly empty slice (dimension bookkeeping only)
+		v = v.slice(false)
+	case 9:
+		v = v.slice(false).t()
 	case 5:
 		v = v.slice(true).slice(true)
 	case 6:
